@@ -22,13 +22,29 @@ Theorem C03_ellipse_contains_def : forall s p,
 Proof. exact ellipse_contains_def. Qed.
 Print Assumptions C03_ellipse_contains_def.
 
+(* after repair D36 the bearing is compared with the angle range modulo 360 *)
 Theorem C03_ring_contains_def : forall s p,
   ring_contains s p = true <->
-  (r_amax s - r_amin s < 360 -> r_amin s <= bearing (r_center s) p <= r_amax s) /\
+  (r_amax s - r_amin s < 360 -> Rmod (bearing (r_center s) p - r_amin s) 360 <= r_amax s - r_amin s) /\
   r_inner s <= hdist (r_center s) p <= r_outer s /\
   (forall h, In h (r_holes s) -> h p = false).
 Proof. exact ring_contains_def. Qed.
 Print Assumptions C03_ring_contains_def.
+
+(* ... which is the documented angle-range definition read modulo full turns: the bearing plus some
+   whole number of turns lies in [angle_min, angle_max] (350..370 and -10..10 describe the same wedge
+   through north), and for a range inside [0, 360] and a bearing in [0, 360) it is the plain
+   comparison, with bearing 0 also accepted as 360 *)
+Theorem C03_wedge_angle_spec : forall amin amax b, 0 <= amax - amin < 360 ->
+  (Rmod (b - amin) 360 <= amax - amin <-> exists n : Z, amin <= b + 360 * IZR n <= amax).
+Proof. exact wedge_angle_spec. Qed.
+Print Assumptions C03_wedge_angle_spec.
+
+Theorem C03_wedge_angle_plain : forall amin amax b,
+  0 <= amin -> amin <= amax -> amax <= 360 -> amax - amin < 360 -> 0 <= b < 360 ->
+  (Rmod (b - amin) 360 <= amax - amin <-> (amin <= b <= amax \/ amin <= b + 360 <= amax)).
+Proof. exact wedge_angle_plain. Qed.
+Print Assumptions C03_wedge_angle_plain.
 
 (* --- the ellipse radius function: semi-major on the axis, semi-minor across, between otherwise --- *)
 Theorem C03_radius_at_axes : forall e, 0 < e_minor e -> e_minor e <= e_major e ->
